@@ -106,6 +106,7 @@ type Run struct {
 	hit      []uint64
 	selState uint64
 	yieldsLeft atomic.Int64
+	yieldSkip  atomic.Int64
 
 	decisions int
 	totalOps  atomic.Int64
@@ -152,6 +153,7 @@ type RunCfg struct {
 	QuantumMax   int // quantum drawn in [0,QuantumMax]; 0 = run until block
 	HotSites     []int
 	YieldBudget  int
+	YieldSkip    int // hot-site hits to let pass before the yield budget starts being spent (preemption late in a run)
 	AlwaysSites  []int // hot sites exempt from the yield budget (rare windows late in a run)
 	StallMax     int // a task parked at a hot intra-op site may be stalled up to this many decisions
 	StartDelay   bool
@@ -602,6 +604,12 @@ func (r *Run) hook(kind, site int) bool {
 		case kHost:
 			preempt = true // explicit yield of a harness task (retry loops)
 		case kYield:
+			if !r.isHot(site) {
+				// not a candidate
+			} else if r.yieldSkip.Load() > 0 {
+				r.yieldSkip.Add(-1)
+				break
+			}
 			if always := site >= 0 && site>>6 < len(r.always) && r.always[site>>6]&(1<<(uint(site)&63)) != 0; always || (r.isHot(site) && r.yieldsLeft.Load() > 0) {
 				if !always {
 					r.yieldsLeft.Add(-1)
@@ -676,6 +684,7 @@ func NewRun(tape *Tape, cfg RunCfg) *Run {
 		}
 	}
 	r.yieldsLeft.Store(int64(cfg.YieldBudget))
+	r.yieldSkip.Store(int64(cfg.YieldSkip))
 	if cfg.Profile {
 		r.hit = make([]uint64, (len(interp.VerifSites)+63)/64)
 	}
